@@ -53,11 +53,11 @@ STRATEGIES = ["plain", "page_by", "page_by_np", "page_by_np_first", "subline", "
 def gen_spec(rng, *, strategy=None, n=None, nrow=None, header_mode=None, footnote=None, source=None,
              placements=None, long_rows=True, dividers=False, levels=None, title=None, subline=None,
              page_headers=None, nulls=0.0, geometry=None, pageby_header=None, font=None, size=None, collide=False,
-             numeric_keys=False):
+             numeric_keys=False, ndata=None):
     """Returns (spec, info). info carries what the oracles need (keys, displayed columns, …)."""
     strategy = strategy or rng.choice(STRATEGIES + ["plain"])
     n = rng.randint(0, 40) if n is None else n
-    ndata = rng.randint(1, 4)
+    ndata = rng.randint(1, 4) if ndata is None else ndata
     page_by = subline_by = None
     if strategy.startswith("page_by"):
         nlev = levels or rng.choice([1, 1, 2, 3])
@@ -236,6 +236,18 @@ def attr_at(value, r, c, default):
     return value[r % len(value)][c % len(value[0])]
 
 
+def displayed_rel(spec, info):
+    """relative widths of the displayed columns: the body's col_rel_width (one entry per frame column, the removed
+    columns' entries dropped — `prepare_dataframe_for_body_encoding`), else equal"""
+    cols = spec["df"]["cols"]
+    rel = (spec.get("body") or {}).get("col_rel_width")
+    if not rel:
+        return [1] * len(info["displayed"])
+    if len(rel) == 1:
+        rel = list(rel) * len(cols)
+    return [rel[cols.index(c)] for c in info["displayed"]]
+
+
 def ldoc_of(spec, info):
     """The Lean model's input (LDoc JSON) computed from the spec — mirrors `calculate_row_metadata`'s
     line estimate with the real get_string_width (font 1, size 9; str(None) == 'None')."""
@@ -247,8 +259,10 @@ def ldoc_of(spec, info):
     total = info["col_total"]
     cum = []
     acc = 0.0
-    for _ in range(nd):
-        acc = acc + (1 * total / nd)
+    rel = displayed_rel(spec, info)          # [1] * nd unless the body gives col_rel_width
+    rel_sum = sum(rel)
+    for k in range(nd):
+        acc = acc + (rel[k] * total / rel_sum)
         cum.append(acc)
     widths = [cum[k] - (cum[k - 1] if k else 0) for k in range(nd)]
     pb = info["page_by"] or []
@@ -258,7 +272,7 @@ def ldoc_of(spec, info):
     for ri, r in enumerate(rows):
         ln = 1
         for k, ci in enumerate(disp_idx):
-            w = measure(str(r[ci]), attr_at(body.get("text_font"), ri, ci, 1),
+            w = measure(docgen.cell_str(spec["df"], ci, r[ci]), attr_at(body.get("text_font"), ri, ci, 1),
                         attr_at(body.get("text_font_size"), ri, ci, 9))
             ln = max(ln, max(1, int(w / widths[k]) + 1))
         pk = [v if (v is None or isinstance(v, str)) else str(v) for v in (r[cols.index(c)] for c in pb)]
